@@ -1,11 +1,196 @@
 (* C39 — Compatible type evolution preserves common members; assignability is reflexive and
-   agrees with decoding.  Property file: statements, `exact`, assumptions. *)
+   agrees with decoding.  Property file: statements, `exact`, assumptions.
+
+   Vocabulary (Xcdr/AssignModel.v): `struct_assignable tc T1 T2` is the decision of
+   CompleteTypeObject::is_assignable_from_w_type_consistency (reader T1 := writer T2) on two
+   structure type objects; `cto_of d` is the type object the code builds from the run-time type
+   d; `ty_of d` is d as the XCDR codec sees it; `encode` / `decode` are serialize_cdr{1,2}_{le,be}
+   and deserialize_top_level_type (Xcdr/XcdrModel.v); `projects T1 v d` says that the decoded
+   DynamicData d holds the writer's value for every member of T1 the writer sample v has, and
+   nothing or the default value for every other member of T1, and no other entry.
+   PARTIAL: the family is `flat_desc` (top-level structures of primitives and (w)strings, no
+   optional members, distinct 28-bit ids); unions, collections, optional members, nested
+   evolution and TryConstruct are outside (see the witnesses at the end). *)
 From DustDDS Require Import Base.Machine Xcdr.XcdrBytes Xcdr.XcdrModel Xcdr.XcdrProps
-  Xcdr.AssignModel Xcdr.AssignProofs.
+  Xcdr.AssignModel Xcdr.AssignProofs Xcdr.AssignEvolve Xcdr.AssignSpec Xcdr.AssignCorr Xcdr.AssignWitness.
 Open Scope Z_scope.
 
+(* ------------------------------------------------------------------ reflexivity *)
 (* every structure type object is assignable from itself, whatever its flags and members *)
 Theorem C39_assignable_refl : forall tc t, struct_assignable tc t t = Ok true.
 Proof. exact assignable_refl. Qed.
 
+(* also without the `self == t2` shortcut: the rules accept T := T when the member type
+   identifiers are supported and T is FINAL, or has a member and distinct member ids *)
+Theorem C39_rules_refl : forall tc t,
+  forallb (fun m => tid_supported (sm_tid m)) (st_members t) = true ->
+  (st_final t = true /\ st_mutable t = false) \/
+  (st_members t <> [] /\ nodup_z (sm_ids (st_members t)) = true) ->
+  struct_rules tc t t = Ok true.
+Proof. exact rules_refl. Qed.
+
+(* a decision is returned (no todo!()) whenever the reader-side member type identifiers are
+   supported *)
+Theorem C39_decision_total : forall tc t1 t2,
+  forallb (fun m => tid_supported (sm_tid m)) (st_members t1) = true ->
+  exists b, struct_assignable tc t1 t2 = Ok b.
+Proof. exact assignable_total. Qed.
+
+(* ------------------------------------------------------------------ evolution decodes *)
+(* FINAL / APPENDABLE, XCDR1 and XCDR2, both byte orders: whenever the reader type is declared
+   assignable from the writer type (members appended by the writer OR by the reader), every
+   well-typed writer sample decodes into its projection on the reader type *)
+Theorem C39_evolution_decodes_appendable : forall V E tc t1 t2 xv,
+  flat_desc t1 = true -> flat_desc t2 = true -> codec_ok V t1 = true -> codec_ok V t2 = true ->
+  ad_ext t2 <> Mutable ->
+  struct_assignable tc (cto_of t1) (cto_of t2) = Ok true ->
+  wt (ty_of t2) (VData xv) = true -> val_nonascii_char (VData xv) = false ->
+  exists bs d, encode V E (ty_of t2) (VData xv) = Ok bs /\
+               decode (ty_of t1) bs = Ok (VData d) /\ projects t1 xv d = true.
+Proof. exact evolution_prefix. Qed.
+
+(* MUTABLE, XCDR2, both byte orders: members added, removed, reordered *)
+Theorem C39_evolution_decodes_mutable : forall E tc t1 t2 xv,
+  flat_desc t1 = true -> flat_desc t2 = true -> ad_ext t2 = Mutable ->
+  ids_u16 t1 = true -> ids_u16 t2 = true ->
+  struct_assignable tc (cto_of t1) (cto_of t2) = Ok true ->
+  wt (ty_of t2) (VData xv) = true -> val_nonascii_char (VData xv) = false -> small_dyn xv = true ->
+  exists bs d, encode V2 E (ty_of t2) (VData xv) = Ok bs /\
+               decode (ty_of t1) bs = Ok (VData d) /\ projects t1 xv d = true.
+Proof. exact evolution_mutable. Qed.
+
+(* ------------------------------------------------------- agreement with decoding *)
+(* a positive decision on the family implies what decoding needs: same extensibility; FINAL /
+   APPENDABLE: the member lists agree (id, codec type) on their common prefix and FINAL lists
+   have the same length; MUTABLE: members with the same id have the same codec type.  Hence a
+   pair whose common members differ in type (e.g. long vs long long) is never declared
+   assignable. *)
+Theorem C39_assignable_implies_compatible : forall tc t1 t2,
+  flat_desc t1 = true -> flat_desc t2 = true ->
+  struct_assignable tc (cto_of t1) (cto_of t2) = Ok true ->
+  ad_ext t1 = ad_ext t2 /\
+  match ad_ext t1 with
+  | Mutable =>
+    forall m1 m2, In m1 (ad_members t1) -> In m2 (ad_members t2) -> am_id m1 = am_id m2 ->
+      ty_of_aty (am_ty m1) = ty_of_aty (am_ty m2)
+  | x =>
+    let k := Nat.min (length (ad_members t1)) (length (ad_members t2)) in
+    Forall2 am_match (firstn k (ad_members t1)) (firstn k (ad_members t2)) /\
+    (x = Final -> length (ad_members t1) = length (ad_members t2))
+  end.
+Proof. exact assignable_shape. Qed.
+
+(* the decision on the family IS the declarative relation `evolves` of AssignModel.v (FINAL:
+   member lists agree pairwise; APPENDABLE: they agree on the common prefix and the by-id rules
+   hold; MUTABLE: the by-id rules hold - corresponding members have the same name and type,
+   at least one member is common, members present on one side only are neither key nor
+   must-understand and do not reuse a name of the reader type), or the type objects are equal *)
+Theorem C39_decision_is_evolves : forall tc t1 t2,
+  flat_desc t1 = true -> flat_desc t2 = true ->
+  struct_assignable tc (cto_of t1) (cto_of t2) =
+  Ok (stype_eqb (cto_of t1) (cto_of t2) || evolves tc t1 t2).
+Proof. exact assignable_flat. Qed.
+
+(* hence every legitimate evolution of the family is accepted (and, by the two theorems above,
+   decodes into the projection): assignability and decoding agree on the family *)
+Theorem C39_legitimate_evolution_accepted : forall tc t1 t2,
+  flat_desc t1 = true -> flat_desc t2 = true -> evolves tc t1 t2 = true ->
+  struct_assignable tc (cto_of t1) (cto_of t2) = Ok true.
+Proof. exact evolves_accepted. Qed.
+
+(* the oracle applied to the implementation's output means what it says *)
+Theorem C39_projects_meaning : forall t1 xv d, projects t1 xv d = true <->
+  (forall m, In m (ad_members t1) ->
+     match lookup (am_id m) xv with
+     | Some x => lookup (am_id m) d = Some x
+     | None => lookup (am_id m) d = None \/
+               (exists z, default_val (ty_of_aty (am_ty m)) = Some z /\ lookup (am_id m) d = Some z)
+     end) /\
+  (forall k, In k (keys d) -> In k (aids (ad_members t1))).
+Proof. exact projects_spec. Qed.
+
+(* ------------------------------------------------------- recorded deviations (witnesses) *)
+(* 1: an integer member is assignable from any hashed type; the nested sample decodes wrongly *)
+Theorem C39_refuted_int_from_hashed :
+  (forall h, struct_assignable tce_default (cto_of w1_t1) (mkST 1 1 [mkSM 0 1 0 (EkComplete h)]) = Ok true) /\
+  refuted V2 w1_t1 w1_t2 w1_x /\
+  C39_known (mkC39 (Ev V2 LE tce_default w1_t1 w1_t2 (VData w1_x)) (OAs (Ok true))) = 1%N.
+Proof. exact witness_int_from_hashed. Qed.
+
+(* 2: two hashed member types are never compared *)
+Theorem C39_refuted_nested_unchecked :
+  (forall h1 h2, struct_assignable tce_default (mkST 1 1 [mkSM 0 1 0 (EkComplete h1)])
+                                   (mkST 1 1 [mkSM 0 1 0 (EkComplete h2)]) = Ok true) /\
+  refuted V2 w2_t1 w2_t2 w2_x /\
+  C39_known (mkC39 (Ev V2 LE tce_default w2_t1 w2_t2 (VData w2_x)) (OAs (Ok true))) = 2%N.
+Proof. exact witness_nested_unchecked. Qed.
+
+(* 3: the DHEADER of a nested appendable structure is ignored by the reader *)
+Theorem C39_refuted_nested_dheader :
+  refuted V2 w3_t1 w3_t2 w3_x /\
+  decode (ty_of w3_t1) [0;7;0;0; 8;0;0;0; 5;0;0;0; 6;0;0;0; 77;0;0;0]
+    = Ok (VData [(0, VData [(0, VP KI32 5)]); (1, VP KI32 6)]) /\
+  C39_known (mkC39 (Ev V2 LE tce_default w3_t1 w3_t2 (VData w3_x)) (OAs (Ok true))) = 3%N.
+Proof. exact witness_nested_dheader. Qed.
+
+(* 4: member ids >= 65536 are confused by the XCDR2 parameter search (outside `ids_u16`) *)
+Theorem C39_refuted_member_id_u16 :
+  struct_assignable tce_default (cto_of w4_t1) (cto_of w4_t2) = Ok true /\
+  flat_desc w4_t1 = true /\ flat_desc w4_t2 = true /\ ids_u16 w4_t1 = false /\
+  refuted V2 w4_t1 w4_t2 w4_x /\
+  C39_known (mkC39 (Ev V2 LE tce_default w4_t1 w4_t2 (VData w4_x)) (OAs (Ok true))) = 4%N.
+Proof. exact witness_member_id_u16. Qed.
+
+(* 5: todo!() on TkNone / maps / SCC / extended identifiers of the reader-side type object *)
+Theorem C39_refuted_todo :
+  struct_assignable tce_default (mkST 1 1 [mkSM 0 1 0 TkNone]) (mkST 1 2 [mkSM 0 1 0 TkInt32]) = Panic P_TID_NONE /\
+  struct_assignable tce_default (mkST 1 1 [mkSM 0 1 0 TiMapSmall]) (mkST 1 2 [mkSM 0 1 0 TkInt32]) = Panic P_TID_MAPS /\
+  struct_assignable tce_default (mkST 1 1 [mkSM 0 1 0 TiScc]) (mkST 1 2 [mkSM 0 1 0 TkInt32]) = Panic P_TID_SCC /\
+  struct_assignable tce_default (mkST 1 1 [mkSM 0 1 0 TiDefault]) (mkST 1 2 [mkSM 0 1 0 TkInt32]) = Panic P_TID_DEFAULT.
+Proof. exact (proj2 witness_todo). Qed.
+
+(* 6: a member optional on one side only (FINAL / APPENDABLE) *)
+Theorem C39_refuted_optional_mismatch :
+  struct_assignable tce_default (cto_of w6_t1) (cto_of w6_t2) = Ok true /\
+  refuted V2 w6_t1 w6_t2 w6_x /\
+  C39_known (mkC39 (Ev V2 LE tce_default w6_t1 w6_t2 (VData w6_x)) (OAs (Ok true))) = 6%N.
+Proof. exact witness_optional_mismatch. Qed.
+
+(* the integer-widening candidate of DESIGN.md (D35) is not present in this tree *)
+Theorem C39_no_integer_widening :
+  struct_assignable tce_default (mkST 1 1 [mkSM 0 1 0 TkInt32]) (mkST 1 1 [mkSM 0 1 0 TkInt64]) = Ok false /\
+  struct_assignable tce_default (mkST 1 1 [mkSM 0 1 0 TkInt32]) (mkST 1 1 [mkSM 0 1 0 TkInt16]) = Ok false /\
+  struct_assignable tce_default (mkST 1 1 [mkSM 0 1 0 TkInt32]) (mkST 1 1 [mkSM 0 1 0 TkUint32]) = Ok false.
+Proof. exact no_integer_widening. Qed.
+
+(* non-vacuity: concrete appendable and mutable evolutions meet the hypotheses *)
+Example C39_nonvacuous :
+  flat_desc ex_a1 = true /\ flat_desc ex_a2 = true /\
+  struct_assignable tce_default (cto_of ex_a1) (cto_of ex_a2) = Ok true /\
+  struct_assignable tce_default (cto_of ex_a2) (cto_of ex_a1) = Ok true /\
+  wt (ty_of ex_a2) (VData ex_ax) = true /\
+  (exists bs, encode V2 LE (ty_of ex_a2) (VData ex_ax) = Ok bs /\
+              decode (ty_of ex_a1) bs = Ok (VData [(0, VP KU8 7); (1, VStr [104; 105])])) /\
+  flat_desc ex_m1 = true /\ flat_desc ex_m2 = true /\ ids_u16 ex_m1 = true /\ ids_u16 ex_m2 = true /\
+  struct_assignable tce_default (cto_of ex_m1) (cto_of ex_m2) = Ok true /\
+  wt (ty_of ex_m2) (VData ex_mx) = true /\ small_dyn ex_mx = true /\
+  (exists bs, encode V2 LE (ty_of ex_m2) (VData ex_mx) = Ok bs /\
+              decode (ty_of ex_m1) bs = Ok (VData [(1, VP KU8 200); (9, VStr [104; 105])])).
+Proof. exact ex_nonvacuous. Qed.
+
 Print Assumptions C39_assignable_refl.
+Print Assumptions C39_rules_refl.
+Print Assumptions C39_decision_total.
+Print Assumptions C39_evolution_decodes_appendable.
+Print Assumptions C39_evolution_decodes_mutable.
+Print Assumptions C39_assignable_implies_compatible.
+Print Assumptions C39_decision_is_evolves.
+Print Assumptions C39_legitimate_evolution_accepted.
+Print Assumptions C39_projects_meaning.
+Print Assumptions C39_refuted_int_from_hashed.
+Print Assumptions C39_refuted_nested_unchecked.
+Print Assumptions C39_refuted_nested_dheader.
+Print Assumptions C39_refuted_member_id_u16.
+Print Assumptions C39_refuted_todo.
+Print Assumptions C39_refuted_optional_mismatch.
+Print Assumptions C39_no_integer_widening.
